@@ -160,6 +160,15 @@ def run(repo, chk):
     chk.ob('a', uc.ref, 'unregisterChild removes the component from the children on every path', p is None and bool(rems), loc(uc, uc.node),
            discr='unregisterChild:remove')
 
+    # ---- e: the tree a child joins / leaves forgets its memoised handler lists ------------------------------
+    chk.rule('C07.e', 'adding or removing a child invalidates the dispatch memo of the tree it joins / leaves (a detached component receives '
+                      'nothing further from its former tree)')
+    from .c01 import Inval, find_cache_attr, find_flag
+    inval = Inval(repo, find_flag(repo), find_cache_attr(repo))
+    for fn, what in ((rc, 'joins'), (uc, 'leaves')):
+        always = inval.always(fn)
+        chk.ob('e', fn.ref, f'the memo of the root of the tree the child {what} is invalidated on every path', 'self.root' in always, loc(fn, fn.node),
+               detail=f'always invalidated: {sorted(always)}', discr=f'memo-invalidated:{fn.name}')
     # ---- _updateRoot ----------------------------------------------------------
     g = upd.cfg()
     rp = upd.params[1]
